@@ -112,3 +112,10 @@ def fill(C, PENDING):
       "passes a validity oracle, or failure carrying UnparsableValueError); inputs are valid texts, single-edit mutants with hostile characters, "
       "out-of-range fields written directly, overlong digit runs, 100k-char strings, and malformed pattern strings.",
       "Mutation corpus and grammar only; violations are keyed by exception type and innermost raising function.", "§3 C08")
+
+    C("C13", "exploration", "runtime monitoring: cache-shadow hooks + differential over differently ordered fresh processes + multi-thread trials with sys.monitoring yield injection",
+      "The same collision-provoking query multiset (years congruent mod 1024, zone periods congruent mod 512, >500 cultures, first lookups) is executed in K fresh "
+      "interpreter processes in different orders and every answer must be identical and equal to the cache-free references; inside every process hooks compare each "
+      "served cache entry with an uncached recomputation; short 2-16 thread trials in fresh processes with seeded sleep(0) at the statement boundaries of every code "
+      "object of the anchored modules must reproduce the single-threaded answers and hand out one object per id.",
+      "Histories and schedules are sampled (evidence: processes, trials, injections, distinct interleaving signatures); only GIL-level interleavings exist.", "§3 C13")
